@@ -259,15 +259,24 @@ pub fn run_hist_addr(h: &[Opt]) -> Option<([u8; 16], u64)> {
 pub const HADDR2: u64 = 0x0000_7654_3210_f000;
 /// history, then set_handler_addr again: the gate must be the default gate for the new address whatever it held before
 pub fn run_hist_then_reset(h: &[Opt]) -> Option<([u8; 16], u64)> {
+    run_hist_then_reset_mode(h, 0)
+}
+/// mode 0: a different address through set_handler_addr; 1: the SAME address again; 2: set_handler_fn, history, the same
+/// handler function again; 3: set_handler_addr, history, set_handler_fn
+pub fn run_hist_then_reset_mode(h: &[Opt], mode: u8) -> Option<([u8; 16], u64)> {
     catch(|| {
         let mut e: Entry<HandlerFunc> = Entry::missing();
         {
-            let o = unsafe { e.set_handler_addr(VirtAddr::new(HADDR)) };
+            let o = if mode == 2 { e.set_handler_fn(dummy_handler) } else { unsafe { e.set_handler_addr(VirtAddr::new(HADDR)) } };
             for &a in h {
                 apply(o, a);
             }
         }
-        unsafe { e.set_handler_addr(VirtAddr::new(HADDR2)) };
+        match mode {
+            0 => { unsafe { e.set_handler_addr(VirtAddr::new(HADDR2)) }; }
+            1 => { unsafe { e.set_handler_addr(VirtAddr::new(HADDR)) }; }
+            _ => { e.set_handler_fn(dummy_handler); }
+        }
         (gate_bytes(&e), e.handler_addr().as_u64())
     })
     .ok()
@@ -335,13 +344,17 @@ fn options_search(r: &mut Rep) {
     for (_, hist) in seen.iter() {
         r.transitions += 1;
         let case = format!("gatereset {:?}", hist);
-        match run_hist_then_reset(hist) {
-            None => r.viol("C12|set_handler_addr|panics-on-a-configured-entry", &case, ""),
-            Some((b, ha)) => {
-                let g = decode_gate(&b);
-                let exp = Gate { offset: HADDR2, selector: cs, ist: 0, zero1: 0, typ: 0xE, zero2: 0, dpl: 0, p: true, reserved: 0 };
-                if g != exp || ha != HADDR2 {
-                    r.viol("C12|set_handler_addr|does-not-reset-options-of-a-previously-configured-entry", &case, &format!("{:x?} expected {:x?}", g, exp));
+        for mode in 0..4u8 {
+            let want = match mode { 0 => HADDR2, 1 => HADDR, _ => dummy_handler as usize as u64 };
+            match run_hist_then_reset_mode(hist, mode) {
+                None => r.viol("C12|set_handler_addr|panics-on-a-configured-entry", &case, ""),
+                Some((b, ha)) => {
+                    let g = decode_gate(&b);
+                    let exp = Gate { offset: want, selector: cs, ist: 0, zero1: 0, typ: 0xE, zero2: 0, dpl: 0, p: true, reserved: 0 };
+                    if g != exp || ha != want {
+                        let what = ["set_handler_addr", "set_handler_addr(same address)", "set_handler_fn(same handler)", "set_handler_fn"][mode as usize];
+                        r.viol(&format!("C12|{}|does-not-reset-options-of-a-previously-configured-entry", what), &case, &format!("{:x?} expected {:x?}", g, exp));
+                    }
                 }
             }
         }
@@ -422,6 +435,7 @@ pub fn run(a: &Args) {
         }
         guarded(&mut r, "C12|option setters|unexpected-panic", || "gateopts".into(), |r| options_search(r));
         guarded(&mut r, "C12|new/reset/missing|unexpected-panic", || "missing".into(), |r| missing_reset(r));
+        guarded(&mut r, "C12|const-context|unexpected-panic", || "constctx".into(), |r| crate::constctx::tables(r, "C12"));
         guarded(&mut r, "C12|load|unexpected-panic", || "load".into(), |r| crate::c12load::run(r));
     }
     ranges(&mut r, a);
